@@ -309,6 +309,21 @@ class World:
         return self.loop.create_task(self.hass.services.async_call(domain, name, data or {}, blocking=blocking,
                                                                    return_response=return_response))
 
+    def webhook(self, webhook_id, payload, method="POST", body="json"):
+        """Hand a webhook request to Home Assistant the way its HTTP view does (MockRequest seam)."""
+        import json
+        from urllib.parse import urlencode
+
+        from homeassistant.components import webhook as ha_webhook
+        from homeassistant.util.aiohttp import MockRequest
+
+        if body == "json":
+            content, headers = json.dumps(payload).encode(), {"Content-Type": "application/json"}
+        else:
+            content, headers = urlencode(payload).encode(), {"Content-Type": "application/x-www-form-urlencoded"}
+        req = MockRequest(content, "127.0.0.1", method=method, headers=headers)
+        return self.loop.create_task(ha_webhook.async_handle_webhook(self.hass, webhook_id, req))
+
     def reload(self, global_ctx=None):
         data = {} if global_ctx is None else {"global_ctx": global_ctx}
         return self.call_service("pyscript", "reload", data)
